@@ -14,7 +14,8 @@
    the remaining case (4-byte ASNs to a 2-byte peer) is C01_as4_to_2byte_peer, at the level of the AS_PATH /
    AS4_PATH attribute pair.  `mc` = which form of the IPv4/MP classification the tree has (harness reads it):
    false = the repaired tree; for mc = true the statement is false (C01_multicast_refuted) and holds for every
-   route except ipv4 multicast (C01_decodes_to_request_partial). *)
+   route except ipv4 multicast (C01_decodes_to_request_partial).  `v4m` = whether the tree sends the IPv4 next hop
+   of an IPv6-family route IPv4-mapped; inside the domain (next hop of the route family) it makes no difference. *)
 From Coq Require Import ZArith Bool List Permutation.
 From ExaV Require Import gen.Gen_NlriRegistry model.Model_Nlri model.Model_Attr model.Model_Encode
   spec.Spec_Nlri spec.Spec_Update proofs.Proofs_Encode.
@@ -25,31 +26,31 @@ Open Scope Z_scope.
    route of the requested family with the requested prefix / labels / rd, the path id the session dictates,
    the resolved next hop; the attribute values are (up to order) the given ones - LOCAL_PREF only on iBGP -
    plus ORIGIN IGP, AS_PATH [] (iBGP) or [local_as] (eBGP), LOCAL_PREF 100 (iBGP) for what is absent *)
-Theorem C01_decodes_to_request : forall ext s r body,
+Theorem C01_decodes_to_request : forall v4m ext s r body,
   wf_route ext s r ->
-  encode_announce false s r = Some body ->
+  encode_announce false v4m s r = Some body ->
   exists u, ref_decode (rs_of s ext) body = Some u
     /\ u_withdrawn u = []
     /\ u_announced u = [((n_afi (r_nlri r), n_safi (r_nlri r)), sem_nlri (send_pid s (r_nlri r)) false (r_nlri r),
                          resolve s (n_afi (r_nlri r)) (r_nh r))]
     /\ Permutation (u_attrs u) (expected_attrs s (r_items r)).
-Proof. intros ext s r body W. exact (announce_decodes' false ext s r body W (or_introl eq_refl)). Qed.
+Proof. intros v4m ext s r body W. exact (announce_decodes' false v4m ext s r body W (or_introl eq_refl)). Qed.
 
 (* the tree that packs ipv4 multicast like unicast: true for everything else ... *)
-Theorem C01_decodes_to_request_partial : forall ext s r body,
+Theorem C01_decodes_to_request_partial : forall v4m ext s r body,
   wf_route ext s r ->
   ~ (n_afi (r_nlri r) = 1 /\ n_safi (r_nlri r) = 2) ->
-  encode_announce true s r = Some body ->
+  encode_announce true v4m s r = Some body ->
   exists u, ref_decode (rs_of s ext) body = Some u
     /\ u_withdrawn u = []
     /\ u_announced u = [((n_afi (r_nlri r), n_safi (r_nlri r)), sem_nlri (send_pid s (r_nlri r)) false (r_nlri r),
                          resolve s (n_afi (r_nlri r)) (r_nh r))]
     /\ Permutation (u_attrs u) (expected_attrs s (r_items r)).
-Proof. intros ext s r body W H. exact (announce_decodes' true ext s r body W (or_intror H)). Qed.
+Proof. intros v4m ext s r body W H. exact (announce_decodes' true v4m ext s r body W (or_intror H)). Qed.
 
 (* ... and false for 224.0.0.0/24 next-hop 1.2.3.4: the peer decodes an ipv4 UNICAST route *)
 Theorem C01_multicast_refuted :
-  exists body u, encode_announce true mc_sess mc_route = Some body
+  exists body u, encode_announce true false mc_sess mc_route = Some body
     /\ ref_decode (rs_of mc_sess (fun _ _ => false)) body = Some u
     /\ map (fun a => fst (fst a)) (u_announced u) = [(1, 1)]
     /\ (n_afi (r_nlri mc_route), n_safi (r_nlri mc_route)) = (1, 2).
@@ -108,7 +109,7 @@ Proof. exact clear16_eff. Qed.
    domain and is encoded (98 octets) *)
 Example C01_example :
   wf_route (fun _ _ => false) ex_sess ex_route
-  /\ exists body, encode_announce false ex_sess ex_route = Some body /\ zlen body = 98.
+  /\ exists body, encode_announce false false ex_sess ex_route = Some body /\ zlen body = 98.
 Proof. exact ex_route_ok. Qed.
 
 Print Assumptions C01_decodes_to_request.
